@@ -52,6 +52,12 @@ CLAIMED = {
   "note": "Trusted: Lean kernel + three standard axioms; the translator's regular expressions for iteration sites and global state (a site spelled in a way they do not recognise would be missed by the theorem and left to the repeated-run search); scheduler and allocator themselves are outside any model; threads are exercised in the thorough tier only.",
   "technique": "Lean 4 proof (permutation invariance) + extracted site lists + repeated execution across processes",
  },
+ "C03": {
+  "text": "Lean 4 theorems over the model of the driver's outcome logic (Casm/Props/C03.lean), for every command line, every assembler answer and every set of unwritable files: drive_dichotomy (a run is a success - ok, no error - or a failure - not ok and at least one error; never error-with-exit-0, never exit-1-without-diagnostic), failure_writes_nothing (a failed run writes no file unless the failure is a write), unwritable_not_written, runGroups_inv. The assembler enters as a parameter with the contract 'no output => at least one error'. That contract and 'never panics' are established on the implementation by search: 16k token-level mutants (incl. multi-byte characters spliced anywhere) of the 490 repository test inputs and of generated programs under budgets 1..10 and both optimisation switches, in-process (panic/abort detection, output <=> no error); 1.5k command lines with several defines, budgets, switches, group shapes and every single I/O fault through driver::drive; and a sample on the real binary (exit status, stderr, files created).",
+  "design_ref": "DESIGN.md section 6, C03",
+  "note": "PARTIAL: totality (no panic for every input) is not a theorem - it rests on the mutation search plus the theorems of C13 (location arithmetic total) and C14/C05 for the parts they model; the assembler's own phases are not yet modelled for the 'error pushed iff Err returned' argument. Stack overflow, allocation failure and hangs are C19's. Trusted: Lean kernel + three standard axioms; the oracle's catch_unwind and process-death detection.",
+  "technique": "Lean 4 proof (case analysis / induction over groups) + mutation search with fault injection",
+ },
 }
 
 NOT_YET = {}
